@@ -89,7 +89,15 @@ void DHCP::add_option(const option& opt) {
 }
 
 void DHCP::internal_add_option(const option& opt) {
-    size_ += static_cast<uint32_t>(opt.data_size() + (sizeof(uint8_t) << 1));
+    size_ += option_size(opt);
+}
+
+uint32_t DHCP::option_size(const option& opt) {
+    // END and PAD are single byte options: they have neither length nor data
+    if (opt.option() == END || opt.option() == PAD) {
+        return sizeof(uint8_t);
+    }
+    return static_cast<uint32_t>(opt.data_size() + (sizeof(uint8_t) << 1));
 }
 
 bool DHCP::remove_option(OptionTypes type) {
@@ -97,7 +105,7 @@ bool DHCP::remove_option(OptionTypes type) {
     if (iter == options_.end()) {
         return false;
     }
-    size_ -= static_cast<uint32_t>(iter->data_size() + (sizeof(uint8_t) << 1));
+    size_ -= option_size(*iter);
     options_.erase(iter);
     return true;
 }
@@ -250,8 +258,10 @@ void DHCP::write_serialization(uint8_t* buffer, uint32_t total_sz) {
         stream.write(Endian::host_to_be<uint32_t>(0x63825363));
         for (options_type::const_iterator it = options_.begin(); it != options_.end(); ++it) {
             stream.write(it->option());
-            stream.write<uint8_t>(it->length_field());
-            stream.write(it->data_ptr(), it->data_size());
+            if (it->option() != END && it->option() != PAD) {
+                stream.write<uint8_t>(it->length_field());
+                stream.write(it->data_ptr(), it->data_size());
+            }
         }
     }
     BootP::write_serialization(buffer, total_sz);
